@@ -45,6 +45,10 @@ MUTANTS = [
     ("vt.contracts.processor_nodes", "pop_node", "cotengra/pathfinders/path_basic.py", "        legs = self.nodes.pop(i)", "        legs = self.nodes[i]"),
     # C06 slice_arrays: the section is taken from another input
     ("vt.contracts.slice_arrays", "slice_arrays", "cotengra/core.py", "            temp_arrays[c] = temp_arrays[c][selector]", "            temp_arrays[c] = temp_arrays[0][selector]"),
+    # C05 greedy search phase: a dead node contracted, a candidate joining a node with itself
+    ("vt.contracts.processor_nodes", "optimize_greedy", "cotengra/pathfinders/path_basic.py", "            if (i not in self.nodes) or (j not in self.nodes):", "            if (i not in self.nodes) and (j not in self.nodes):"),
+    ("vt.contracts.processor_nodes", "optimize_greedy", "cotengra/pathfinders/path_basic.py", "                contractions[c] = (k, l, msize, mlegs)", "                contractions[c] = (k, k, msize, mlegs)"),
+    ("vt.contracts.processor_nodes", "neighbors", "cotengra/pathfinders/path_basic.py", "                if j != i:\n                    yield j", "                if True:\n                    yield j"),
     # C09 DP step: the seeded early sieve on the children's scores, a table update that can make an entry worse, a lost update
     ("vt.contracts.dp_step", "optimize_optimal_connected", "cotengra/pathfinders/path_basic.py", "                        # do sorted simultaneous iteration over ilegs and jlegs", "                        if iscore + jscore > cost_cap:\n                            continue"),
     ("vt.contracts.dp_step", "optimize_optimal_connected", "cotengra/pathfinders/path_basic.py", "if (current is None) or (new_score < current[1]):", "if True:"),
